@@ -28,7 +28,31 @@ T1 = "_http._tcp.local."
 T2 = "_ipp._tcp.local."
 
 
+def _generate_registry_race(rng):
+    """A query and its link-layer copy wait in the socket buffer of a process that is descheduled across the instant its
+    first registration completes: the first copy is read while nothing is registered yet (not listened to), the
+    registration completes, the copy is read. Shortly afterwards the instance itself has the same question to ask. (The
+    stall ends before either copy is read: none lies between the two reads of a pair.)"""
+    sv = gen_services(rng, 1, types=[T1], hosts=["hostv.local."], prefix="V")
+    tr = round(0.01 + rng.choice([0.0, 0.5, 2.0]) * rng.random(), 6)
+    ops = [{"t": 0.0, "op": "host", "h": "V", "ip": "10.0.0.1", "layout": rng.choice(["default", "multi"]), "ip6": None,
+            "unicast": False},
+           {"t": 0.0, "op": "peer", "p": "X", "ip": "10.0.0.9", "ports": [5353, 5354]},
+           {"t": tr, "op": "register", "h": "V", "svc": sv[0]},
+           # (probes at +0, +175, +350 ms: the registry gets the service with the third)
+           {"t": round(tr + rng.choice([0.2, 0.3, 0.34]), 6), "op": "stall", "h": "V", "dur": rng.choice([0.1, 0.2, 0.4])},
+           {"t": round(tr + 0.345, 6), "op": "send", "p": "X",
+            "msg": {"q": [[rng.choice([T1, sv[0]["name"]]), rng.choice([12, 12, 255]), 0]], "id": 0}},
+           {"t": round(tr + rng.choice([0.8, 0.85, 1.0, 1.2]), 6), "op": "browse", "h": "V", "id": "vb", "types": [T1],
+            "qtype": "QM", "lookup_on_add": None, "raise_once": False}]
+    ops.sort(key=lambda o: o["t"])
+    return {"ops": ops, "faults": {"max_delay_us": 0, "loop_delay_us": rng.choice([0, 300])}, "end": round(tr + 5.0, 6),
+            "dup_p": 1.0, "dup_own": False, "qu_free": True, "b2b_gap_us": 0}
+
+
 def generate(rng, tier):
+    if rng.random() < 0.06:
+        return _generate_registry_race(rng)
     sv = gen_services(rng, 2, types=[T1], hosts=["hostv.local."], prefix="V", custom_ttl=False)
     sh = gen_services(rng, 1, types=[rng.choice([T1, T2])], hosts=["hosth.local."], prefix="H", custom_ttl=False)
     v6 = rng.random() < 0.3  # dual-stack instance: datagrams are read from an AF_INET6 socket (4-tuple source addresses)
